@@ -182,7 +182,7 @@ func c02FollowThrough(v *c02Verdict, w *world.World, t *ssoTruth) {
 
 var c02MovedACS = []msg.ACS{{msg.BindPost, "https://sp-a-moved.example/acs/post", "0", "true"}, {msg.BindRedirect, "https://sp-a-moved.example/acs/redirect", "1", ""}}
 
-var c02HistModes = []string{"unregistered", "moved", "unregistered+lookup-error", "moved+lookup-error-once-before"}
+var c02HistModes = []string{"unregistered", "moved", "unregistered+lookup-error", "moved+lookup-error-once-before", "moved-in-place-replace", "moved-in-place-edit"}
 
 // c02History: the request p is handled once; then SP A's registration is removed ("unregistered") or replaced by a list of
 // other consumer endpoints ("moved"); then the same request is sent again on the same provider. The second request is
@@ -207,6 +207,13 @@ func c02History(p ssoP, mode string) c02Verdict {
 	case strings.HasPrefix(mode, "unregistered"):
 		w.Store.UnregisterSP(a.EntityID)
 		t2.ACSList = nil
+	case strings.HasPrefix(mode, "moved-in-place"):
+		// the registry keeps the ServiceProvider object it built once and updates its exported Metadata field
+		a.ACS = c02MovedACS
+		if !w.Store.UpdateSPInPlace(a.EntityID, a.XML(), strings.TrimPrefix(mode, "moved-in-place-")) {
+			panic("c02History: SP A is not registered")
+		}
+		t2.ACSList = c02MovedACS
 	case strings.HasPrefix(mode, "moved"):
 		a.ACS = c02MovedACS
 		if _, err := w.Store.RegisterSP("app-a", a.XML()); err != nil {
